@@ -52,7 +52,7 @@ def main():
         import json
 
         again = False
-        for f in glob.glob(os.path.join(K.VERIF, "replays", "%s-%s-*.json" % (prop, tier))):
+        for f in glob.glob(os.path.join(os.environ.get("VERIF_REPLAY_DIR") or os.path.join(K.VERIF, "replays"), "%s-%s-*.json" % (prop, tier))):
             try:
                 if json.load(open(f)).get("key") == replay_key:
                     again = True
